@@ -399,8 +399,8 @@ Definition sst := @st pay ustate.
 
 (** Create the pre-run events in order (global counter from 0, i.e. right after
     [Simulation.__init__]), push them, apply pre-run cancellations.  The in-run
-    counter continues above them, skipping one index (the probe in
-    [_set_active_context]). *)
+    counter continues above them ([_set_active_context] peeks at the per-heap
+    counter and re-seeds it above the highest index already pushed). *)
 Definition script_init (start : Z) (p : program) (pre : list prespec) : sst :=
   let c := fold_left (fun c ps =>
                         let '(c1, x) := create_emit 0 (mkEmit (mkEmit0 (ps_time ps) (e_target (em (ps_emit ps)))
@@ -410,7 +410,7 @@ Definition script_init (start : Z) (p : program) (pre : list prespec) : sst :=
                         if ps_cancel ps then mkI (ix_u c2) (ix_ctr c2) (ix_new c2) (ev_sort x :: ix_cancel c2) else c2)
                      pre (mkI (u_init p) 0 [] []) in
   let evs := rev (ix_new c) in
-  let ctr0 := match evs with [] => 1 | _ => ix_ctr c end in
+  let ctr0 := ix_ctr c in
   let s := init_state start (ix_u c) evs ctr0 in
   mkSt (clock s) (heap s) (primary s) (ctr s) (ix_cancel c) (user s) (processed s) (ncancelled s) (log s) (pushed s).
 
